@@ -21,13 +21,21 @@ Proof.
   - intros [= <- _ _]. cbn. repeat split; discriminate.
 Qed.
 
+Lemma presume_ok_from_app a : forall r b,
+  presume_ok_from r (a ++ b) = presume_ok_from r a && presume_ok_from (fold_left rstep a r) b.
+Proof.
+  induction a as [|o t IH]; intros r b; cbn [app presume_ok_from fold_left]; [reflexivity|].
+  rewrite IH, Bool.andb_assoc. reflexivity.
+Qed.
+
 Lemma commit_ok_all_stored P ops wo1 wo2 :
+  presume_ok ops = true ->
   snd (commit_attempt P (run P ops) wo1 wo2) = true ->
   let s2 := fst (commit_attempt P (run P ops) wo1 wo2) in
   closed s2 = false /\ mem s2 = [] /\ flushing s2 = None /\
-  forall k, lookup k (store s2) = lookup k (rmap (rrun ops)).
+  forall k, eqv (cneset s2) k (lookup k (store s2)) (lookup k (rmap (rrun ops))).
 Proof.
-  intros Hok.
+  intros Hpre Hok.
   assert (Hrun : fst (commit_attempt P (run P ops) wo1 wo2) = run P (ops ++ [OFlush true 0 wo1; OFlushWait wo2])).
   { unfold run at 2. rewrite run_from_app. fold (run P ops). unfold run_from; cbn [fold_left step].
     unfold commit_attempt in *. destruct (flush P (run P ops) true 0 wo1) as [s1 r1]. cbn [fst].
@@ -56,11 +64,13 @@ Proof.
   assert (Hcl : closed (run P ops') = false).
   { rewrite E2. cbn [clear_flushing closed]. destruct (closed s1c) eqn:Ec; [|reflexivity].
     exfalso. apply (sh_closed _ Hsc Ec). exact Hpend. }
-  pose proof (rinv_run P ops' Hcl) as Hinv.
+  assert (Hpre' : presume_ok ops' = true).
+  { unfold presume_ok, ops'. rewrite presume_ok_from_app. fold (presume_ok ops). rewrite Hpre. reflexivity. }
+  pose proof (rinv_run P ops' Hpre' Hcl) as Hinv.
   unfold ops' in Hinv at 2. rewrite rrun_flush_tail in Hinv.
   assert (Hmem : mem (run P ops') = []).
   { rewrite E2. cbn [clear_flushing mem]. destruct (complete_frame s1 wo2) as (F1 & _). fold s1c in F1. congruence. }
   assert (Hfl : flushing (run P ops') = None) by (rewrite E2; reflexivity).
   repeat split; try assumption.
-  intros k. rewrite <- (ri_mem _ _ Hinv k). unfold view, below. rewrite Hmem, Hfl. reflexivity.
+  intros k. pose proof (ri_mem _ _ Hinv k) as Hm. unfold view, below in Hm. rewrite Hmem, Hfl in Hm. exact Hm.
 Qed.
